@@ -263,6 +263,27 @@ def check(tier, seed, only=None, skip_a=False, skip_b=False):
     except Exception:  # pylint: disable=broad-except
       import traceback
       cov = {"proof_tier_notes": ["proof tier not run: " + traceback.format_exc(limit=4)]}
+    # cue times: the real vtt_timestamp_to_secs / to_model with the reader's timestamp pattern stubbed by symbolic digit groups
+    from contracts import reader_times
+    ths = [reader_times.h_vtt_timestamp(True), reader_times.h_vtt_timestamp(False), reader_times.h_vtt_cue_times()]
+    if only:
+      ths = [h for h in ths if only in h.name]
+    if ths:
+      cov_t, f_t, u_t, e_t = framework.run_tier_a(PROP, ths)
+      for k in ("obligations", "discharged", "harnesses", "paths", "reachability_probes", "reachable"):
+        cov[k] = cov.get(k, 0) + cov_t.get(k, 0)
+      for k in ("solver_time_s", "explore_time_s"):
+        cov[k] = round(cov.get(k, 0) + cov_t.get(k, 0), 2)
+      for b, n in cov_t.get("by_backend", {}).items():
+        cov.setdefault("by_backend", {})[b] = cov.get("by_backend", {}).get(b, 0) + n
+      cov["functions_under_contract"] = list(cov.get("functions_under_contract", [])) + \
+          [f for f in cov_t.get("functions_under_contract", []) if f["qualname"] not in {g["qualname"] for g in cov.get("functions_under_contract", [])}]
+      cov.setdefault("samples", []).extend(cov_t.get("samples", [])[:3])
+      for k in ("checker_cmd", "rewrites_applied_to_source", "rewrite_crosscheck"):
+        cov.setdefault(k, cov_t.get(k))
+      findings += f_t
+      undecided += u_t
+      errors += e_t
   located = list(cov.get("functions_under_contract", []))
   have = {f["qualname"] for f in located}
   for fn in FUNCTIONS:
@@ -287,7 +308,8 @@ def check(tier, seed, only=None, skip_a=False, skip_b=False):
       cov["bounded_samples"] = data.get("samples", [])[:12]
       cov["bounded_exhaustive"] = False
       cov["exhaustive_contracts"] = (data.get("bounded_scope") or {}).get("exhaustive_contracts")
-  cov["explanation"] = ("Tier A: the geometry of _get_or_make_region (real source, symbolically executed, string parsers replaced by their "
+  cov["explanation"] = ("Tier A: cue times -- the real vtt_timestamp_to_secs and to_model with the timestamp pattern stubbed by symbolic digit "
+                        "groups (A-RE): exact rational begin/end for every value of every field, hours optional; the geometry of _get_or_make_region (real source, symbolically executed, string parsers replaced by their "
                         "contracts) for all percentages 0..100 and all integer line numbers, every combination of setting kinds: region "
                         "inside the root container, writing mode, text/display alignment, anchoring, extent.  Tier B (bounded run-time "
                         "contracts against an independent WebVTT oracle, not counted as proved): helper functions on grids; the same region "
